@@ -3,7 +3,7 @@ import Model.TaskQueue
 import Std.Data.HashSet
 /-! Model driver of C15 (task queue).  Area `forced`: scripts of environment actions
 
-      reset | new <workers> <depth> <inCap> | sub <n|p>+ | rel <id>* | shut | relshut <id>* | obs
+      reset | new <workers> <depth> <inCap> | sub <n|p>+ | rel <id>* | shut | relshut <id>* | obs | end
 
   (anything after `##` on a line is a hint for the harness and is ignored here).  After each line the model runs its
   internal steps (dispatcher, workers taking and reporting, released tasks finishing, the sequential submitter's
@@ -22,14 +22,23 @@ structure D where
   released : List Nat := []
 
 /-- successors by internal steps: everything but `shutdown`; `submit` only for the submitter's next pending send;
-    `finish t` only for released tasks -/
+    `finish t` only for released tasks.
+    Reduction: if a released task t is running, only `finish t` is explored.  This loses no quiescent state: `finish t`
+    stays enabled until it fires (nothing else removes t from `running`), so it occurs on every path to a quiescent
+    state, and it can be moved to the front of the path — every other rule that is enabled before `finish t` is enabled
+    after it (`take` reads `running.length + reporting`, which `finish` keeps; `report` reads `0 < reporting`, which
+    `finish` only makes true) and the two results commute, up to the order of the `finished`/`recovered` lists, which
+    the observable sorts. -/
 def succs (c : Cfg) (released : List Nat) (n : Node) : List Node :=
   let (s, pend) := n
+  match s.running.find? (fun t => released.contains t) with
+  | some t => ((next c s (.finish t)).map (·, pend)).toList
+  | none =>
   let inner := (enabled c s).filterMap fun l =>
     match l with
     | .submit _ => none
     | .shutdown => none
-    | .finish t => if released.contains t then (next c s l).map (·, pend) else none
+    | .finish _ => none
     | _ => (next c s l).map (·, pend)
   match pend with
   | p :: rest => match next c s (.submit p) with
@@ -128,6 +137,14 @@ def step (d : D) (line : String) : D × String :=
     | some ids => doShut { d with released := d.released ++ ids.filter (fun i => !d.released.contains i) }
     | none => (d, "bad-op")
   | ["obs"] => if !d.live then (d, "bad-op") else settle d "" d.nodes
+  | ["end"] =>
+    -- every task (also those not yet accepted) is released; when that has settled Shutdown is called (if it was not)
+    if !d.live then (d, "bad-op") else
+    let total := d.nodes.foldl (fun m n => max m (n.1.nextId + n.2.length)) 0
+    let (d1, o1) := settle { d with released := List.range total } "" d.nodes
+    if o1 == "too-big" then (d1, o1)
+    else if allB d1.nodes (fun n => n.2.isEmpty && n.1.shut == 0) then doShut d1
+    else settle d1 "" d1.nodes
   | _ => (d, "bad-op")
 
 def main : IO Unit := Proto.run step {}
